@@ -52,7 +52,9 @@ Definition counters_ok (r : parsed) : Prop :=
   map snd sl = map Some (p_prince r) /\ p_base r = p_prince r /\
   p_supported r = forallb supported_label (p_base r) /\
   length (p_providers r) = length (texts 1 sl) /\
-  length (p_hosts r) = length (texts 2 sl) /\ length (p_prefixes r) = length (texts 2 sl).
+  length (p_hosts r) = length (texts 2 sl) /\ length (p_prefixes r) = length (texts 2 sl) /\
+  (* the alpha words and masks also in section order *)
+  p_alpha r = map L (texts 5 sl) /\ p_masks r = map (case_mask isupper) (texts 5 sl).
 
 Theorem parse_full : forall m pw, good pw -> pw <> [] ->
   exists r, PARSE m pw = POk r /\ tiles pm pw (p_sections r) /\ Forall sound (p_sections r) /\
@@ -109,6 +111,10 @@ Proof.
               (fun s p f Hs D => match alpha_class isalpha isdigit isupper lower_c kbs min_run year_prefixes context_strings
                                          mw_threshold mw_min_len mw_max_len min_len_pos m s p f Hs D with
                                  | conj a (conj b (conj _ d)) => conj a (conj b d) end) sl4 sl5 f5 E5 Hi4) as (A5m & _ & _).
+  assert (Halpha_cls : forall s p f, good s -> detect_alpha isalpha isupper lower_c true (mwp m) s = DYes p f ->
+            unlab_all good p /\ only_class 5 p).
+  { intros s p f Hs D. destruct (alpha_class isalpha isdigit isupper lower_c kbs min_run year_prefixes context_strings
+                                    mw_threshold mw_min_len mw_max_len min_len_pos m s p f Hs D) as (a & b & _). now split. }
   assert (Hna5 : unlab_all nalpha sl5).
   { unfold drive_all in E5. eapply (drive_complete _ _ good nalpha); [| |exact E5|exact Hi4].
     - intros s Hgs D. unfold DetectProofsSeg.nalpha. rewrite <- (good_nalpha isalpha isdigit lower_c) by assumption.
@@ -189,6 +195,22 @@ Proof.
   assert (P6 : Permutation f6 (map fst (filter (isC 6) sl6))).
   { rewrite (pre 6%nat sl5 ltac:(chain B1 B2 B3 B4 B5 B6) ltac:(discriminate)), app_nil_r, flat_map_single, map_id in A6.
     exact A6. }
+  assert (F5pre : filter (isC 5) sl4 = []) by (apply (pre 5%nat sl4); [chain B1 B2 B3 B4 B5 B6|discriminate]).
+  assert (O5 : filter (isC 5) sl6 = filter (isC 5) sl5).
+  { apply (stage_other_eq _ (detect_digits isdigit) (fun _ => True) 6) with (reex := false) (fs := f6); try assumption.
+    - intros s p f Hs D. destruct (digit_class isdigit s p f Hs D) as (a & b & _). now split.
+    - discriminate.
+    - apply Forall_forall; intros; exact I. }
+  assert (OA : flat_map fst f5 = map (fun x => L (fst x)) (filter (isC 5) sl6)).
+  { rewrite O5. symmetry.
+    apply (stage_found_ordered _ _ good 5 Halpha_cls _ fst (fun x => L (fst x))) with (todo := sl4); try assumption.
+    intros s p f Hs D. destruct (alpha_shape isalpha isdigit isupper lower_c mw_threshold mw_min_len mw_max_len min_len_pos m s p f Hs D)
+      as (l1 & mids & l3 & E & Hne' & Hm & Hf & _). exists l1, mids, l3. auto. }
+  assert (OM : flat_map snd f5 = map (fun x => case_mask isupper (fst x)) (filter (isC 5) sl6)).
+  { rewrite O5. symmetry.
+    apply (stage_found_ordered _ _ good 5 Halpha_cls _ snd (fun x => case_mask isupper (fst x))) with (todo := sl4); try assumption.
+    intros s p f Hs D. destruct (alpha_shape isalpha isdigit isupper lower_c mw_threshold mw_min_len mw_max_len min_len_pos m s p f Hs D)
+      as (l1 & mids & l3 & E & Hne' & Hm & _ & Hf). exists l1, mids, l3. auto. }
   repeat split.
   - rewrite Hwalks. unfold texts. apply Permutation_map. chain B1 B2 B3 B4 B5 B6.
   - now rewrite map_map.
@@ -204,6 +226,8 @@ Proof.
   - rewrite !map_length. apply Permutation_length in P1. now rewrite !map_length in P1.
   - rewrite !map_length. apply Permutation_length in P2. now rewrite !map_length in P2.
   - rewrite !map_length. apply Permutation_length in P2. now rewrite !map_length in P2.
+  - now rewrite map_map.
+  - now rewrite map_map.
 Qed.
 
 End Pipe.
